@@ -48,9 +48,38 @@ def menu_from_args(a):
     return m
 
 
+def _derived_of_reload(o):
+    """zero(), copy() and o*0.5 of the JSON reload of o (one more step than the search depth allows for)."""
+    import histogrammar as hg
+
+    r = hg.Factory.fromJson(o.toJson())
+    out = [("copy() of the reload", r.copy(), 1.0), ("zero() of the reload", r.zero(), 0.0)]
+    try:
+        out.append(("reload*0.5", r * 0.5, 0.5))
+    except Exception:
+        pass  # (Count with a transform refuses scaling)
+    return out
+
+
 def check_state(spec, pool, refs, hist, menu, out):
     args = {"spec": spec, "menu": menu_args(menu), "history": [list(op) for op in hist]}
     for i, o in enumerate(pool):
+        if refs is not None and len(hist) <= 1:
+            try:
+                for nm, d_, f in _derived_of_reload(o):
+                    r = I.inv(d_)
+                    if r:
+                        out.append(FW.violation(PROP, "history", "%s invariant in %s" % (r[1], nm), r[2].split("=")[0].split(" ")[0],
+                                                args, {"member": i, "path": r[0], "message": r[2], "history": X.show_history(hist, menu)}))
+                        return
+                    dd = C.diff(d_.toJson(), R.ref_doc(spec, R.scale_events(refs[i].evs, f)), prune_zero=True)
+                    if dd:
+                        out.append(core.v_diff(PROP, "history", "%s differs from the reference" % nm, dd, d_.toJson(), args,
+                                               {"member": i, "history": X.show_history(hist, menu)}))
+                        return
+            except Exception as e:
+                out.append(core.v_exc(PROP, "history", "deriving from the reload raised", e, args, {"member": i}))
+                return
         r = I.inv(o)
         if r:
             path, typ, msg = r
